@@ -482,8 +482,20 @@ func (x *Exec) call(fr *Frame, st *State, reach string, cc *ssa.CallCommon, ins 
 	}
 	if callee == nil {
 		// unknown function value: user callback (A-user) or unresolved
-		x.assumed["dynamic call "+cc.Value.Name()+" in "+funcKey(fr.fn)+" (callback: havoc of all non-ghost state)"] = true
-		x.applyMods(st, []modLoc{{heap: "*nonghost", whole: true}})
+		pureCb := false
+		if par, ok := cc.Value.(*ssa.Parameter); ok && fr.con != nil {
+			for _, pn := range fr.con.CallbackPure {
+				if pn == par.Name() {
+					pureCb = true
+				}
+			}
+		}
+		if pureCb {
+			x.assumed["dynamic call "+cc.Value.Name()+" in "+funcKey(fr.fn)+" assumed to have no side effects (callback pure: A-user)"] = true
+		} else {
+			x.assumed["dynamic call "+cc.Value.Name()+" in "+funcKey(fr.fn)+" (callback: havoc of all non-ghost state)"] = true
+			x.applyMods(st, []modLoc{{heap: "*nonghost", whole: true}})
+		}
 		na := x.fresh("alc", "Int")
 		x.emit(fmt.Sprintf("(assert (>= %s %s))", na, st.alc))
 		st.alc = na
@@ -641,6 +653,36 @@ func (x *Exec) applyContract(fr *Frame, st *State, reach string, con *Contract, 
 			lbl = fmt.Sprint(k)
 		}
 		x.oblige(x.oblName(fr, "pre", ins.Pos(), short+"."+lbl), "pre@call", reach, f, cl, site+": precondition of "+key+": "+cl.Text)
+	}
+	// call-site requirements imposed by the contract of the function being verified
+	if x.con != nil && fr.top && topFrame != nil {
+		for ck, cls := range x.con.CallSites {
+			rk, err := x.eng.resolveKey(normKey(x.con.Pkg, ck))
+			if err != nil || rk != key {
+				continue
+			}
+			cc2 := x.newCtx(st, topFrame.entry, x.con.Pkg, reach, fr)
+			x.bindFrameNames(fr, ins.Block(), cc2)
+			x.bindBlockNames(fr, ins.Block(), cc2)
+			ats := argTypes(callee, sig, recvT)
+			for i, pn := range pnames {
+				if i < len(args) && i < len(ats) && pn != "" {
+					cc2.env["a_"+pn] = envEntry{v: args[i], t: ats[i]}
+				}
+			}
+			for k, cl := range cls {
+				f, err := cc2.formula(cl.E)
+				if err != nil {
+					x.fatal("%s:%d: callsite %s: %v", cl.File, cl.Line, ck, err)
+					continue
+				}
+				lbl := cl.Label
+				if lbl == "" {
+					lbl = fmt.Sprint(k)
+				}
+				x.oblige(x.oblName(fr, "callsite", ins.Pos(), short+"."+lbl), "callsite", reach, f, cl, site+": every call of "+key+" satisfies: "+cl.Text)
+			}
+		}
 	}
 	for k, cl := range con.Panics {
 		f, err := c.formula(cl.E)
@@ -952,9 +994,16 @@ func (x *Exec) appendBuiltin(fr *Frame, st *State, reach string, cc *ssa.CallCom
 	x.assume(reach, sx("<=", newLen, "9223372036854775807")) // a longer slice cannot exist (append would panic: out of memory)
 	res := SliceV{ite(fits, s.Arr, narr), ite(fits, s.Off, "0"), newLen, ite(fits, s.Cap, ncap)}
 	res = x.nameVal("ap", res).(SliceV)
+	if kindOf(et) == KStruct && flatStruct(et) {
+		// struct elements live in the field heaps at eaddr$T(arr, idx): the old elements are carried over to
+		// the result, the appended ones are left unconstrained (sound: their contents are simply unknown),
+		// every other address keeps its value.
+		x.structElemsMove(st, et, []elemMove{{res.Arr, res.Off, "0", s.Arr, s.Off, s.Len}, {res.Arr, res.Off, s.Len, add.Arr, add.Off, add.Len}}, func(a, i string) string {
+			return sx("and", sx("=", a, res.Arr), sx("or", not(fits), sx("and", sx("<=", sx("+", res.Off, s.Len), i), sx("<", i, sx("+", res.Off, newLen)))))
+		})
+		return res
+	}
 	if kindOf(et) == KStruct || kindOf(et) == KArray {
-		// struct elements: field heaps at eaddr addresses. Model for the common 1-element append of a
-		// varargs literal is too intricate to be worth it: havoc the field heaps of the element type.
 		x.warn("append on []%s: element contents havoc", typeKey(et))
 		x.havocStructElems(st, et)
 		return res
@@ -981,6 +1030,73 @@ func (x *Exec) appendBuiltin(fr *Frame, st *State, reach string, cc *ssa.CallCom
 	return res
 }
 
+// flatStruct: a struct whose fields are all scalars, slices or interfaces (no nested struct / array values)
+func flatStruct(t types.Type) bool {
+	s, ok := t.Underlying().(*types.Struct)
+	if !ok {
+		return false
+	}
+	for i := 0; i < s.NumFields(); i++ {
+		switch kindOf(s.Field(i).Type()) {
+		case KStruct, KArray:
+			return false
+		}
+	}
+	return true
+}
+
+// structElemsMove rewrites the field heaps of struct type et as by a memmove of n elements from
+// (srcArr, srcOff..) to (dstArr, dstOff..): moved elements take the OLD values of their sources (overlap
+// safe), every address outside `written` (a formula over a = array and i = index of an element address)
+// keeps its value; addresses inside `written` that are not move targets are unconstrained.
+type elemMove struct{ dstArr, dstOff, dstShift, srcArr, srcOff, n string }
+
+func (x *Exec) structElemsMove(st *State, et types.Type, moves []elemMove, written func(a, i string) string) {
+	sn := et.Underlying().(*types.Struct)
+	ea := "eaddr$" + typeKey(et)
+	x.declEaddr(ea)
+	tag := x.tagIDs[ea]
+	for fi := 0; fi < sn.NumFields(); fi++ {
+		f := sn.Field(fi)
+		for _, c := range x.comps(f.Type()) {
+			name := fieldHeap(et, f) + c.suffix
+			srt := arrSort(c.sort)
+			h := x.heap(st, name, srt)
+			x.n++
+			nh := fmt.Sprintf("%s!%d", name, x.n)
+			x.declare(nh, srt)
+			se := x.selemFn(ea)
+			for _, m := range moves {
+				// indices relative to the base offsets: dst index i in [dRel, dRel+n) takes the old value of src index i + (sRel - dRel)
+				dB, dR := x.offBaseOf(m.dstOff)
+				sB, sR := x.offBaseOf(m.srcOff)
+				if m.dstShift != "" && m.dstShift != "0" {
+					if dR == "0" {
+						dR = m.dstShift
+					} else {
+						dR = sx("+", dR, m.dstShift)
+					}
+				}
+				dR = x.define("mvd", "Int", dR)
+				sR = x.define("mvs", "Int", sR)
+				x.emit(fmt.Sprintf("(assert (forall ((i Int)) (! (=> (and (<= %s i) (< i (+ %s %s))) (= (select %s (%s %s %s i)) (select %s (%s %s %s (+ i (- %s %s)))))) :pattern ((select %s (%s %s %s i))))))",
+					dR, dR, m.n, nh, se, m.dstArr, dB, h, se, m.srcArr, sB, sR, dR, nh, se, m.dstArr, dB))
+				x.emit(fmt.Sprintf("(assert (forall ((j Int)) (! (=> (and (<= %s j) (< j (+ %s %s))) (= (select %s (%s %s %s (+ j (- %s %s)))) (select %s (%s %s %s j)))) :pattern ((select %s (%s %s %s j))))))",
+					sR, sR, m.n, nh, se, m.dstArr, dB, dR, sR, h, se, m.srcArr, sB, h, se, m.srcArr, sB))
+			}
+			w := written(fmt.Sprintf("(%s$a p)", ea), fmt.Sprintf("(%s$i p)", ea))
+			x.emit(fmt.Sprintf("(assert (forall ((p Int)) (! (=> (not (and (= (addrkind p) %d) %s)) (= (select %s p) (select %s p))) :pattern ((select %s p)))))", tag, w, nh, h, nh))
+			st.heap[name] = nh
+			if st.alc != "" {
+				if x.heapAlc == nil {
+					x.heapAlc = map[string]string{}
+				}
+				x.heapAlc[nh] = st.alc
+			}
+		}
+	}
+}
+
 func (x *Exec) havocStructElems(st *State, et types.Type) {
 	s, ok := et.Underlying().(*types.Struct)
 	if !ok {
@@ -1002,6 +1118,13 @@ func (x *Exec) copyBuiltin(fr *Frame, st *State, reach string, cc *ssa.CallCommo
 	dst, ok1 := args[0].(SliceV)
 	src, ok2 := args[1].(SliceV)
 	et := cc.Args[0].Type().Underlying().(*types.Slice).Elem()
+	if ok1 && ok2 && kindOf(et) == KStruct && flatStruct(et) {
+		n := x.define("copyn", "Int", ite(sx("<=", dst.Len, src.Len), dst.Len, src.Len))
+		x.structElemsMove(st, et, []elemMove{{dst.Arr, dst.Off, "0", src.Arr, src.Off, n}}, func(a, i string) string {
+			return sx("and", sx("=", a, dst.Arr), sx("<=", dst.Off, i), sx("<", i, sx("+", dst.Off, n)))
+		})
+		return I(n)
+	}
 	if !ok1 || !ok2 || kindOf(et) == KStruct || kindOf(et) == KArray {
 		if ok1 {
 			x.warn("copy with unsupported operands: destination havoc")
